@@ -30,7 +30,9 @@ CONSTANTS Threads,      \* thread ids
           Args,         \* pool of argument variants per configuration
           MaxStages,    \* hook points at which a call may be preempted
           Depth,        \* length of generated histories
-          Memo          \* TRUE: negative model with a memo table keyed by PART of the arguments
+          Memo,         \* TRUE: negative model with a memo table keyed by PART of the arguments
+          Bias          \* TRUE (simulation for the replay only): thin out constructions / mismatching calls so that
+                        \* random behaviours contain many overlapping calls; FALSE: the full nondeterminism
 
 VARIABLES defaultDtype, cache, mods, calls, ver, memo, hist
 vars == <<defaultDtype, cache, mods, calls, ver, memo, hist>>
@@ -48,12 +50,13 @@ Init == /\ defaultDtype = "f32" /\ cache = {} /\ mods = [m \in Mods |-> NoMod]
 Log(e) == hist' = Append(hist, e)
 NoActiveCall(m) == \A t \in Threads : calls[t].mod # m
 
+Rarely(k) == ~Bias \/ Len(hist) % k = 0
 SetDefaultDtype(d) ==
-    /\ d # defaultDtype /\ defaultDtype' = d
+    /\ d # defaultDtype /\ defaultDtype' = d /\ Rarely(4)
     /\ Log([a |-> "default", d |-> d]) /\ UNCHANGED <<cache, mods, calls, ver, memo>>
 
 Construct(m, c) ==
-    /\ NoActiveCall(m)
+    /\ NoActiveCall(m) /\ (mods[m] = NoMod \/ Rarely(5))
     /\ mods' = [mods EXCEPT ![m] = [cfg |-> c, dtype |-> defaultDtype]]
     /\ cache' = cache \cup TablesOf(c)                      \* _load_from_file: hit or miss, same value
     /\ Log([a |-> "construct", m |-> m, c |-> c]) /\ UNCHANGED <<defaultDtype, calls, ver, memo>>
@@ -65,13 +68,13 @@ To(m, d) ==
 
 \* copy.deepcopy(module): an independent module with the same configuration and buffer dtype
 Clone(m, m2) ==
-    /\ m # m2 /\ mods[m] # NoMod /\ NoActiveCall(m2)
+    /\ m # m2 /\ mods[m] # NoMod /\ NoActiveCall(m2) /\ Rarely(4)
     /\ mods' = [mods EXCEPT ![m2] = mods[m]]
     /\ Log([a |-> "clone", m |-> m, m2 |-> m2]) /\ UNCHANGED <<defaultDtype, cache, calls, ver, memo>>
 \* construct afresh (in the CURRENT default dtype) and load_state_dict() the buffers of m: the loaded copy keeps
 \* the dtype it was constructed with, values are converted
 Reload(m, m2) ==
-    /\ m # m2 /\ mods[m] # NoMod /\ NoActiveCall(m2)
+    /\ m # m2 /\ mods[m] # NoMod /\ NoActiveCall(m2) /\ Rarely(4)
     /\ mods' = [mods EXCEPT ![m2] = [cfg |-> mods[m].cfg, dtype |-> defaultDtype]]
     /\ cache' = cache \cup TablesOf(mods[m].cfg)
     /\ Log([a |-> "reload", m |-> m, m2 |-> m2]) /\ UNCHANGED <<defaultDtype, calls, ver, memo>>
@@ -79,6 +82,7 @@ Reload(m, m2) ==
 \* a thread starts a call: the argument's dtype must match the buffers' (else torch raises, logged as such)
 CallBegin(t, m, x, d, g) ==
     /\ calls[t] = Idle /\ mods[m] # NoMod
+    /\ (d = mods[m].dtype \/ ~Bias \/ (x = 1 /\ ~g /\ Rarely(3)))
     /\ IF d # mods[m].dtype
        THEN /\ Log([a |-> "call_raises", t |-> t, m |-> m, x |-> x, d |-> d]) /\ UNCHANGED calls
        ELSE /\ calls' = [calls EXCEPT ![t] = [mod |-> m, arg |-> x, adt |-> d, grad |-> g, stage |-> 0,
